@@ -256,6 +256,25 @@ func roundtripPlan(sig, tier string) []Unit {
 		b := big
 		units = append(units, Unit{Opts: def, Mon: mon, Tag: "after-refusal", History: []Letter{alpha[2], {Sig: sig, Big: &b}, alpha[2], alpha[5]}})
 	}
+	// the three signals interleaved on one producer/consumer pair (resource and
+	// scope attribute payload types are shared between them); histories that
+	// contain at least one batch of this signal
+	{
+		var mixed []Letter
+		for _, sg := range sigs() {
+			a := historyAlphabet(sg, false)
+			mixed = append(mixed, a[1], a[2], a[5])
+		}
+		for _, h := range histories(mixed, 3) {
+			has := false
+			for _, l := range h {
+				has = has || l.Sig == sig
+			}
+			if has {
+				units = append(units, Unit{Opts: def, Mon: mon, Tag: "mixed-signals", History: h})
+			}
+		}
+	}
 	// one key, a different value type under each parent
 	{
 		ml := mixLetters(sig, 1)
